@@ -2,6 +2,7 @@
 //! with `--features verif`) on generated or replayed cases and prints one line per case:
 //! `<PROP> <args…> | <canonical implementation result>`.
 mod conn;
+mod sess;
 mod util;
 mod wire;
 
@@ -12,6 +13,7 @@ fn run_line(prop: &str, args: &[&str]) -> String {
     match prop {
         "C06" => conn::run(args),
         "C07" => wire::run(args),
+        "C13" => sess::run13(args),
         _ => panic!("unknown property {}", prop),
     }
 }
@@ -20,6 +22,7 @@ fn gen(prop: &str, rng: &mut Rng, n: usize) -> Vec<String> {
     match prop {
         "C06" => conn::gen(rng, n),
         "C07" => wire::gen(rng, n),
+        "C13" => sess::gen13(rng, n),
         _ => panic!("unknown property {}", prop),
     }
 }
